@@ -274,7 +274,9 @@ func H_Structure() {
 			l.comments = v - 9
 		}
 	}
-	vary(pick(12))
+	if vf.Param("nolayout", 0) == 0 {
+		vary(pick(12))
+	}
 	if vf.Param("pairs", 0) == 1 {
 		vary(pick(12))
 	}
